@@ -128,7 +128,8 @@ def features(x) -> List[str]:
     t = x[0]
     if t == "bin":
         a, b = py_type(x[2]), py_type(x[3])
-        if x[1] in ("Add", "Sub", "Mult", "Div", "Mod") and "bool" in (a, b):
+        # the translator types -b / +b of a boolean b as bool (finding unary-minus-bool), so such an operand is refused too
+        if x[1] in ("Add", "Sub", "Mult", "Div", "Mod") and ("bool" in (a, b) or impl_bool(x[2]) or impl_bool(x[3])):
             out.append("bool-operand-refused")
         if x[1] == "Mod" and "float" in (a, b):
             out.append("mod-floating-illformed")
@@ -138,10 +139,19 @@ def features(x) -> List[str]:
     elif t == "un":
         if x[1] in ("USub", "UAdd") and py_type(x[2]) == "bool":
             out.append("unary-minus-bool")
+        if x[1] == "Not" and py_type(x[2]) != "bool":
+            out.append("not-typed-as-operand")
         out += features(x[2])
     elif t == "cmp":
         out += features(x[2]) + features(x[3])
     return out
+
+
+def impl_bool(x) -> bool:
+    """The translator's type of x is bool: a comparison / boolean, or a sign applied to one."""
+    if py_type(x) == "bool":
+        return True
+    return x[0] == "un" and x[1] in ("USub", "UAdd") and impl_bool(x[2])
 
 
 def contains(x, pred) -> bool:
@@ -392,6 +402,12 @@ def table_rows() -> List[Dict[str, Any]]:
     for op in ("UAdd", "USub", "Not", "Invert"):
         for k, e in list(KINDS.items()) + [("int_method", ["leaf", "it"])]:
             rows.append({"cls": "unary", "label": f"{op} {k}", "expr": ["un", op, e]})
+    # a unary operator applied to a unary operator: `not not x` is the truth value of x (not x), -(-x) is x, and the mixtures
+    for o1 in ("USub", "Not", "UAdd"):
+        for o2 in ("USub", "Not", "UAdd"):
+            for k, e in list(KINDS.items()) + [("int_method", ["leaf", "it"])]:
+                rows.append({"cls": "unary", "label": f"{o1} {o2} {k}", "expr": ["un", o1, ["un", o2, e]]})
+                rows.append({"cls": "unary", "label": f"({o1} {o2} {k}) * 10", "expr": ["bin", "Mult", ["un", o1, ["un", o2, e]], ["int", 10]]})
     for op in CMPS:
         for k1, e1 in KINDS.items():
             for k2, e2 in KINDS.items():
@@ -646,7 +662,8 @@ def check(tier: str, seed: int, t0: float, build: core.BuildStatus) -> int:
                     break
                 pyt = ifexp_type(p["ifexp"][1], p["ifexp"][2]) if p["kind"] == "ifexp" else py_type(x)
                 if not type_ok(pyt, p["declared"]):
-                    cls = "conditional-declared-double" if p["kind"] == "ifexp" else ("unary-minus-bool" if "unary-minus-bool" in fs else "wrong-declared-type")
+                    cls = "conditional-declared-double" if p["kind"] == "ifexp" else ("unary-minus-bool" if "unary-minus-bool" in fs else
+                                                                                      ("not-typed-as-operand" if "not-typed-as-operand" in fs else "wrong-declared-type"))
                     viol(cls, f"{obs['query']} on {backend}: the result is a Python {pyt} ({pv!r}) but the column is declared {p['declared']}",
                          {**replay, "sample": sample, "python": repr(pv), "declared": p["declared"]})
                     break
